@@ -13,3 +13,5 @@ import Props.C10
 #print axioms C10.append_aliases
 #print axioms C10.append_pure_when_full
 #print axioms Policy.covers_contains
+#print axioms C10.route_type_documented
+#print axioms C10.route_type_partition
